@@ -415,7 +415,7 @@ class C14(core.Check):
         with open(planf, 'w') as f:
             json.dump({'mode': 'words', 'regex': WORD}, f)
         cmd = [env.PY, '-m', 'yalafi.shell', '--no-config', '--as-server', str(port), '--lt-command',
-               '%s -S %s' % (env.PY, shellrun.FAKELT)]
+               '%s -S %s' % (env.PY, shellrun.FAKELT), '--lt-options', '~--disable CFGRULE --enablecategories CFGCAT']
         e = env.child_env({'YVM_LT_LOG': log, 'YVM_LT_PLAN': planf})
         srv = subprocess.Popen(cmd, cwd=d, env=e, stdout=subprocess.DEVNULL, stderr=subprocess.PIPE)
         cnt = {'fam_server': 1}
@@ -438,9 +438,29 @@ class C14(core.Check):
                 doc = gdocs.random_document(rnd, size=rnd.randint(1, 5), kinds=DOC_KINDS, max_depth=3, pack='*',
                                             theorems=False)
                 src = doc.src
-                data = urllib.parse.urlencode({'text': src, 'language': 'en-GB'}).encode('ascii')
+                fields = {'text': src, 'language': 'en-GB'}
+                # request fields override the configured proofreader options for this request only
+                want_opts = {'--disable': 'CFGRULE', '--enablecategories': 'CFGCAT'}
+                if rnd.random() < .4:
+                    fields['disabledRules'] = 'REQRULE%d' % k
+                    want_opts['--disable'] = fields['disabledRules']
+                if rnd.random() < .3:
+                    fields['enabledCategories'] = 'REQCAT%d' % k
+                    want_opts['--enablecategories'] = fields['enabledCategories']
+                ncalls = sum(1 for _ in open(log)) if os.path.exists(log) else 0
+                data = urllib.parse.urlencode(fields).encode('ascii')
                 with urllib.request.urlopen('http://localhost:%d/v2/check' % port, data=data, timeout=60) as rp:
                     ms = json.loads(rp.read().decode('utf-8'))['matches']
+                calls = [json.loads(ln) for ln in open(log)][ncalls:] if os.path.exists(log) else []
+                for c in calls:
+                    av = c['argv']
+                    got_opts = {o: av[av.index(o) + 1] if o in av else None for o in want_opts}
+                    last = {o: av[len(av) - 1 - av[::-1].index(o) + 1] if o in av else None for o in want_opts}
+                    if last != want_opts or got_opts != want_opts:
+                        return dict(ok=False, nt=True, key='server:rule-options', cnt=cnt, obs=None,
+                                    detail=dict(request=k, fields={x: y for x, y in fields.items() if x != 'text'},
+                                                argv=av, want=want_opts))
+                    cnt['server_option_checks'] = cnt.get('server_option_checks', 0) + 1
                 words = {w: st for w, st, path in doc.words}
                 offs = []
                 for m in ms:
@@ -464,7 +484,7 @@ class C14(core.Check):
 
     def quotas(self, tier):
         return {'fam_doc': 40, 'docs_with_own_checks': 10, 'plain_input_docs': 8, 'flagged_words_judged': 300, 'fam_ml': 25, 'ml_words_judged': 100,
-                'ml_runs_with_several_parts': 10, 'ml_short_parts': 5, 'pairs_judged': 50, 'server_requests': 10,
+                'ml_runs_with_several_parts': 10, 'ml_short_parts': 5, 'pairs_judged': 50, 'server_requests': 10, 'server_option_checks': 10,
                 'docs_with_non_ascii_words': 5}
 
 
